@@ -288,7 +288,7 @@ def witness_unit(name):
 def run(ctx):
     rep = Report('C06', 'model_checking')
     n_steps = 3 if ctx.quick else 4
-    budget = 200 if ctx.quick else 1500
+    budget = 600 if ctx.quick else 3000
     light = ('const1', 'world', 'access', 'copy')
     deep, shallow = (3, 2) if ctx.quick else (4, 3)
     units = [(k, deep, budget, light, [k2], None) for k in light if k != 'copy' for k2 in light]
